@@ -267,6 +267,7 @@ def scenarios(tier):
     for a in HISTORIES:
         for b in HISTORIES[1:]:
             out.append((f'history: {a}, then {b}', lambda a=a, b=b: scenario_history(a, b)))
+    out.append(('ESTABLISHED: second incoming connection through the listener', scenario_second_connection))
     return out
 
 
@@ -292,7 +293,7 @@ def session_traces(tier, seed):
     crashes = [r for r in res if r and r.get('harness')]
     if crashes:
         raise RuntimeError('session harness failed to set a scenario up: ' + crashes[0]['what'])
-    return {'evaluations': len(sc), 'distinct_nontrivial': len(sc), 'bound': f'{len(c10.faults())} faults x 3 states, a NOTIFICATION received in each state, {len(ACTIONS)} events (peer closes / sends a NOTIFICATION, with and without reconnection allowed; teardown, shutdown, re-establish with and without a new neighbor) x 3 states, a peer that never sends its KEEPALIVE with hold time 0 / 3 / 180, and {len(HISTORIES) * 2} two-session histories on one Peer object; each on the real Peer over loopback TCP; every trace judged against T1-T5', 'rule': 'one case = one scenario', 'samples': [{'case': sc[0][0]}, {'case': sc[-1][0]}], 'failures': fails}
+    return {'evaluations': len(sc), 'distinct_nontrivial': len(sc), 'bound': f'{len(c10.faults())} faults x 3 states, a NOTIFICATION received in each state, {len(ACTIONS)} events (peer closes / sends a NOTIFICATION, with and without reconnection allowed; teardown, shutdown, re-establish with and without a new neighbor) x 3 states, a peer that never sends its KEEPALIVE with hold time 0 / 3 / 180, and {len(HISTORIES) * 2} two-session histories on one Peer object, a second incoming connection refused through the real Listener; each on the real Peer over loopback TCP; every trace judged against T1-T5', 'rule': 'one case = one scenario', 'samples': [{'case': sc[0][0]}, {'case': sc[-1][0]}], 'failures': fails}
 
 
 @replayer('C05', 'session-traces')
@@ -340,3 +341,63 @@ def _hc_no_down():
     from . import sessionharness as SH
 
     return _with_patch(SH.Events, 'down', lambda self, neighbor, reason='': None, 'ESTABLISHED: teardown 2')
+
+
+# ---------------------------------------------------------------------------------------------------------------------
+# an incoming connection for a neighbor whose session is already ESTABLISHED, through the REAL Listener.new_connections
+# (real accept bookkeeping, real neighbor matching, real Peer.handle_connection): the second connection must be answered
+# (Cease 6/7) and CLOSED, and the established session must be left alone.
+class _OnePeerReactor:
+    def __init__(self, peer):
+        self.peer = peer
+
+    def peers(self, service=''):
+        return ['the-peer']
+
+    def neighbor(self, key):
+        return self.peer.neighbor
+
+    def handle_connection(self, key, connection):
+        return self.peer.handle_connection(connection)
+
+
+async def scenario_second_connection():
+    import socket
+    from exabgp.reactor.listener import Listener
+
+    sess = Traced()
+    inp = {'scenario': 'ESTABLISHED: a second incoming connection for the same neighbor, through the real Listener'}
+    try:
+        try:
+            await sess.to_state('ESTABLISHED')
+        except RuntimeError as e:
+            return {'what': f'harness: {e}', 'input': inp, 'harness': True}
+        lsock = socket.socket(socket.AF_INET, socket.SOCK_STREAM)
+        lsock.bind(('127.0.0.1', 0))
+        lsock.listen(1)
+        lsock.setblocking(False)
+        theirs = socket.socket(socket.AF_INET, socket.SOCK_STREAM)
+        theirs.connect(lsock.getsockname())
+        listener = Listener(_OnePeerReactor(sess.peer))
+        listener.serving = True
+        listener._sockets = {lsock: ('127.0.0.1', 0, '127.0.0.1', None)}
+        await asyncio.sleep(0.05)
+        listener.incoming()
+        for _ in listener.new_connections():
+            pass
+        second = S.Remote(theirs)
+        written = await second.drain_until_close(timeout=2.0)
+        lsock.close()
+        if not second.closed:
+            theirs.close()
+            return {'what': 'a connection refused because the session is already established is left open (never answered, never closed)', 'input': inp}
+        if [t for t, _b in written] != [3] or written[0][1][:2] != bytes([6, 7]):
+            return {'what': f'the refused connection was answered with {[(t, b[:2]) for t, b in written]}, expected one NOTIFICATION 6/7', 'input': inp}
+        if sess.peer.fsm.name() != 'ESTABLISHED' or sess.remote.closed:
+            return {'what': 'refusing a second connection disturbed the established session', 'input': inp}
+        sess.peer.teardown(2)
+        await sess.remote.drain_until_close(timeout=2.5)
+        await sess.finish(timeout=4)
+        return judge_trace(sess.log, sess.received, inp, finished=True)
+    finally:
+        sess.cleanup()
